@@ -187,6 +187,7 @@ def run_scenario(sc):
         c.latency = lambda node, api: api_lat[api] if api in api_lat else lat[0] + (lat[1] - lat[0]) * rng.random()
         faults = {int(k): v for k, v in (sc.get("faults") or {}).items()}
         counter = {"n": 0}
+        per_api = {}
         apis = ("ListOffsets", "OffsetFetch", "FindCoordinator", "Fetch", "Metadata")
 
         def fault_for(info):
@@ -194,6 +195,11 @@ def run_scenario(sc):
                 return None
             counter["n"] += 1
             f = faults.get(counter["n"])
+            # "api_faults": {"ListOffsets": [fault for its 1st request, 2nd, ...]} - faults aimed at one API
+            per_api[info["api"]] = per_api.get(info["api"], 0) + 1
+            lst = (sc.get("api_faults") or {}).get(info["api"]) or []
+            if f is None and per_api[info["api"]] <= len(lst):
+                f = lst[per_api[info["api"]] - 1]
             if f is None:
                 return None
             kind, code = f["kind"], f.get("code", 0)
@@ -383,9 +389,20 @@ def run_scenario(sc):
         deadline = loop.time() + sc.get("drain", 30.0)
         want = sc.get("consume", 3)
         got = {p: 0 for p in range(nparts)}
+        blocking = sc.get("app") == "getone_blocking"
         while loop.time() < deadline:
             try:
-                r = await consumer.getmany(timeout_ms=100, max_records=1)
+                if blocking:
+                    # a caller parked in getone(): whatever error is buffered for a partition has to wake it
+                    net.ev("a_block_begin", task=0)
+                    try:
+                        m = await asyncio.wait_for(consumer.getone(), timeout=sc.get("block_timeout", 6.0))
+                    except asyncio.TimeoutError:
+                        net.ev("a_block_timeout", task=0)
+                        break
+                    r = {TopicPartition(m.topic, m.partition): [m]}
+                else:
+                    r = await consumer.getmany(timeout_ms=100, max_records=1)
                 for tp, ms in r.items():
                     net.ev("a_getmany", task=0, parts=[], mx=1, recs={str(tp.partition): [rec_json(m) for m in ms]})
                     got[tp.partition] += len(ms)
